@@ -41,11 +41,12 @@ type World struct {
 	constRefs   map[string]int
 	constSlices map[*types.Var]*string
 	pureResult  map[string]Sort
+	opaqueInvs  map[string]bool
 }
 
 func NewWorld(root string) *World {
 	fset := token.NewFileSet()
-	w := &World{Root: root, Fset: fset, Pkgs: map[string]*Pkg{}, Files: map[string][]byte{}}
+	w := &World{Root: root, Fset: fset, Pkgs: map[string]*Pkg{}, Files: map[string][]byte{}, opaqueInvs: map[string]bool{}}
 	w.std = importer.ForCompiler(fset, "source", nil)
 	w.Cs = &Contracts{Funcs: map[string]*FuncContract{}, TypeInvs: map[string]*TypeInvariant{}, Ghosts: map[string]string{}, Lemmas: map[string]*FuncContract{}, Preds: map[string]*Pred{}, GhostFields: map[string]map[string]string{}}
 	return w
@@ -184,7 +185,7 @@ func funcKey(f *types.Func) string {
 				pkg = nt.Obj().Pkg().Path()
 			}
 		} else if _, ok := t.(*types.Interface); ok {
-			name = "interface"
+			name = "anon"
 		}
 		if ptr {
 			return pkg + ".(*" + name + ")." + f.Name()
